@@ -110,6 +110,9 @@ UpperOf(p, c, dtx) == Min2(4 * c.c.max, Max2(0, 4 * p.pw + c.c.rate * dtx))
 PwrClipOf(p, c) ==
   \E dtx \in {p.dt, c.dt}, dyn \in {p.c.dyn, c.c.dyn} :
      Abs(4 * c.pw - Clip(4 * (c.pa + c.pr), -4 * Max2(dyn, 0), UpperOf(p, c, dtx))) <= 8 + dtx
+(* the dynamic-braking capability the consist publishes with a saved step is that of its CURRENT locomotives:   *)
+(* the sum of their drivetrain ratings (ls.dyn, summed by the projection; both sides rounded to 1/8 W)           *)
+PwrDynCapOf(c) == Abs(c.c.dyn - c.ls.dyn) <= 1 + (Abs(c.c.dyn) + Abs(c.ls.dyn)) \div 100000000
 (* energy_whl_out accumulates pwr_whl_out x the trace's own dt: 8 de_q = pw_q dt_q                  *)
 ETol(h, c) == 9 + TrDt(h, c.k)
 PwrEnergyOf(h, p, c)    == Abs(8 * (c.e - p.e) - c.pw * TrDt(h, c.k)) <= ETol(h, c)
